@@ -9,6 +9,18 @@
 //! excludes non-terminating programs); an allocation failure < 2^40 bytes under the 6 GiB
 //! address-space limit is discarded as inconclusive. A fraction of cases is also run through
 //! `succinctly jq -c -f <file> <input>` (exit status 101 / death by signal = crash).
+//!
+//! Abort-prone programs (huge numeric operands, `infinite`, >= 100 levels of nesting) that parse are
+//! run through the CLI *first* (under `ulimit -v` 6 GiB): a CLI death gives the abort a minimised,
+//! narrow signature `C30/cli-abort/<kind>/<culprit>` and keeps the worker alive; everything else
+//! that kills a worker is reported by the engine as `C30/<sub>/process-abort/<kind>`.
+//! Signatures of caught panics: `C30/<stage>/panic@<file>/<message, digits -> N>/<culprit>` where the
+//! culprit is the last builtin (or the operators) left after AST + token delta debugging.
+//!
+//! Development aids (never set by run.sh): `VH_C30_SHOW=<entropy replay>` prints the case without
+//! running it (process-abort replays carry no description because the worker died);
+//! `VH_C30_COLLECT=<file>` appends failures instead of stopping; `VH_C30_TRACE=<dir>` leaves the
+//! filter of every unfinished case behind; `VH_C30_DUMP_SNIPPETS=1` lists the hostile snippets.
 use crate::cli;
 use crate::engine::*;
 use crate::gen::jqprog::{self, Cfg, Profile, Prog};
@@ -70,23 +82,6 @@ fn deep_capable(text: &str, input_depth: usize, nest: usize) -> bool {
     }
     const LOOPS: &[&str] = &["reduce", "foreach", "recurse", "repeat", "while", "until", "range", "limit", "def ", "..", "setpath", "fromjson", "walk", "paths", "getpath", "tostream", "fromstream", "*", "tojson", "flatten", "combinations", "transpose", "input"];
     LOOPS.iter().any(|k| text.contains(k))
-}
-
-/// identifiers of a program text (for signatures of raw-text families)
-fn idents(text: &str) -> Vec<String> {
-    let mut v: Vec<String> = vec![];
-    let mut cur = String::new();
-    for c in text.chars().chain(std::iter::once(' ')) {
-        if c.is_ascii_alphanumeric() || c == '_' || c == '@' || c == '$' {
-            cur.push(c);
-        } else {
-            if cur.chars().next().map_or(false, |c| c.is_ascii_alphabetic() || c == '@' || c == '$' || c == '_') && !v.contains(&cur) {
-                v.push(cur.clone());
-            }
-            cur.clear();
-        }
-    }
-    v
 }
 
 /// Builtin names and operators of a (minimised) program: strings, numbers, field names and variables
